@@ -1,12 +1,37 @@
-COMPONENT = {}
-NOT_APPLICABLE = {
- "C11": "component check (TLC-enumerated vectors replayed on JointConfig/ProgressTracker) not built yet in this revision",
- "C12": "component check (Changer algebra vs ConfChange.tla) not built yet in this revision",
- "C14": "component check (RaftLog vs Log.tla sequence model) not built yet in this revision",
- "C18": "component check (Inflights vs Inflights.tla FIFO model) not built yet in this revision",
- "C19": "component check (MemStorage vs MemStorage.tla) not built yet in this revision",
+def comp(pid, ref, what, model, mc):
+    return {
+        "property_id": pid,
+        "quick_cmd": "./check %s --tier quick" % pid,
+        "thorough_cmd": "./check %s --tier thorough" % pid,
+        "evidence_file": "evidence/%s.json" % pid,
+        "replay_cmd_template": "./check %s --replay {path}" % pid,
+        "engine": "tlc-vectors",
+        "level_claimed": {
+            "category": "model_checking",
+            "text": ("%s TLC enumerates every operation sequence of spec/%s within small constants (spec/MC/%s*.cfg), checks the "
+                     "property-level invariants and the refinement between the property's abstract model and the code-shaped "
+                     "operators used by the system specification, and prints one vector per transition plus one full query table "
+                     "per distinct state; harness/compreplay replays every vector on the real data structure and compares every "
+                     "observable. Exhaustive inside the constants; nothing is claimed beyond them.") % (what, model, mc),
+            "design_ref": "DESIGN.md " + ref,
+        },
+        "level_note": "Trusted: TLC, the vector replayer (harness/src/bin/compreplay), the documented preconditions used as enabling "
+                      "conditions. Bounds are the CONSTANTS of the .cfg files and are listed in the evidence.",
+        "technique": "explicit TLA+ component model, exhaustively enumerated by TLC; every generated transition replayed on the real code (model-based testing from the TLC state graph)",
+    }
+
+COMPONENT = {
+ "C11": comp("C11", "§7 C11", "Quorum arithmetic is stated directly (largest index acknowledged by a majority; joint = min; vote tallies; group commit).", "Quorum.tla", "MC_Quorum"),
+ "C12": comp("C12", "§7 C12", "The Changer algebra (simple / enter-joint / leave-joint / restore) with the invariants, round trip and quorum overlap of the statement as TLC invariants.", "ConfChange.tla", "MC_ConfChange"),
+ "C14": comp("C14", "§7 C14", "RaftLog over storage + unstable + snapshot, refined to a plain sequence model (TLC invariants Contiguous, TermAgrees, SliceAgrees, Ordering, LimitedSliceOK, CommittedStable).", "Log.tla", "MC_Log"),
+ "C18": comp("C18", "§7 C18", "Inflights as a bounded FIFO with deferred capacity changes; the ring buffer as implemented is a second description refined to it.", "Inflights.tla", "MC_Inflights"),
+ "C19": comp("C19", "§7 C19", "MemStorage as snapshot point + compaction point + contiguous entries with the documented errors.", "MemStorage.tla", "MC_MemStorage"),
 }
+NOT_APPLICABLE = {}
 LEVEL = {}
 LEVEL_TEXT = {}
 TECHNIQUE = {}
-ENGINES = []
+ENGINES = [
+ {"name": "tlc-vectors", "path": "spec/MC", "serves_properties": ["C11", "C12", "C14", "C18", "C19"],
+  "kind_free_text": "TLC enumeration of component specifications printing JSON vectors; harness/compreplay replays them on the real structures"},
+]
